@@ -14,15 +14,17 @@
       (`Generated.C01State.dispatcherMemos`: container name, block it short-circuits, the fields its
       key mentions, size bound), and when a description is sound (`Memo.sound`: the key mentions
       everything the short-circuited block reads);
-  §3  the dispatcher with the memo on its dimension-check block threaded through:
-      `stdBinaryM` / `binaryPathM` / `dispatchM : Cfg → Store → Call → Store × Run`, and
+  §3  the dispatcher with its two memo tables threaded through — one on the dimension-check block
+      (none on the unchanged tree), one on the unit rule (`_unit_rule_cache`, an `lru_cache` per rule
+      function): `stdBinaryM` / `binaryPathM` / `dispatchM : Cfg → St → Call → St × Run`, and
       `runHistory` (a list of earlier calls, then the call).  `stdBinaryV` is `Ufunc.stdBinary` with the
-      verdict of the check block as a parameter (`stdBinaryV_plain : … = stdBinary …` by `rfl`).
+      verdict of the check block and the unit rule as parameters (`stdBinaryV_plain : … = stdBinary …` by `rfl`).
 
   Theorems (UnytProofs/C01History.lean): a sound configuration is transparent — after ANY history
   the outcome of a call is `Ufunc.dispatch` of that call alone; hence a mismatch is refused after
-  any history.  The unchanged tree has no memo on the check block (kernel-decided over the
-  regenerated table); a memo keyed by the two units only is refuted by a concrete history.
+  any history.  The unchanged tree has no memo on the check block and a soundly keyed one on the unit
+  rule (kernel-decided over the regenerated table); a check memo keyed by the two units only is refuted
+  by a concrete history.
 -/
 import UnytModel.Ufunc
 
